@@ -33,6 +33,7 @@ func nmoveKernelStage(c *vh.Ctx, n int, prop string) {
 	}
 	saved := kept
 	c.Correspond("nitro.nmove", cases, impl, 1e-9, 1e-12, func(i int) interface{} { return saved[i] })
+	nmoveSrcImpStage(c, saved)
 	nmoveConcurrent(c, saved)
 }
 
@@ -260,6 +261,7 @@ func mineralKernelStage(c *vh.Ctx, n int, prop string) {
 	}
 	saved := kept
 	c.Correspond("nitro.mineral", cases, impl, 1e-9, 1e-12, func(i int) interface{} { return saved[i] })
+	mineralSrcImpStage(c, saved)
 }
 
 func denitKernelStage(c *vh.Ctx, n int, prop string) {
